@@ -39,6 +39,7 @@ class AngleBroken(Exception):
 
 def judge(angle: float, tol: float, nds):
     """Returns (ok, message, key)."""
+    angle, tol = float(angle), float(tol)     # numpy scalars and ints are finite angles too
     if not isinstance(nds, list) or len(nds) > 64:
         return False, f"result is not a list of at most 64 steps: {str(nds)[:80]}", None
     total = Decimal(0)
@@ -134,6 +135,14 @@ def cases(ctx):
     for i, a in enumerate(sdk):
         if ctx.mine(i) and (not ctx.quick or i % 7 == 0):
             yield {"kind": "sdk", "angle": a, "axis": "XYZ"[i % 3]}
+    # angles given as other finite numeric types than the builtin float
+    for i, (a, tp) in enumerate([(1, "int"), (3, "int"), (-2, "int"), (0.7, "float32"), (2.5, "float32"), (1.1, "float64"), (7, "int"), (5.5, "float32")]):
+        if ctx.mine(i):
+            yield {"kind": "sdk", "angle": a, "axis": "XYZ"[i % 3], "type": tp}
+    # the same float angle used on a FutureQubit (EPR context) and afterwards on ordinary qubits
+    for i, a in enumerate([0.7, 1.234, -0.4, 2.0, 5.5] + [ctx.rng.uniform(0.05, 6.2) for _ in range(4 if ctx.quick else 60)]):
+        if ctx.mine(i):
+            yield {"kind": "sdk-future-qubit", "angle": a, "axis": "XYZ"[i % 3]}
 
 
 def _nontrivial(angle, tol):
@@ -166,10 +175,20 @@ def run_case(ctx, case):
     from vf.harness.sdkprobe import emitted_subroutines
     tol = 1e-4  # documented default of the decomposition
 
+    if case["kind"] == "sdk-future-qubit":
+        return _future_qubit(ctx, case)
+    arg = a
+    if case.get("type"):
+        import fractions
+        import numpy as np
+        arg = {"int": int, "float32": np.float32, "float64": np.float64, "float16": np.float16,
+               "Fraction": lambda v: fractions.Fraction(v)}[case["type"]](a)
+        a = float(arg)
+
     def prog(conn):
         from netqasm.sdk.qubit import Qubit
         q = Qubit(conn)
-        getattr(q, "rot_" + case["axis"])(angle=a)
+        getattr(q, "rot_" + case["axis"])(angle=arg)
 
     try:
         subs = emitted_subroutines(prog)
@@ -191,4 +210,45 @@ def run_case(ctx, case):
         ctx.fail(case, "SDK route: " + msg, key=key)
     elif _state["viol"]:
         ctx.fail(case, _state["viol"][0], key=_state["viol"][1])
+    ctx.case(case, _nontrivial(a, tol))
+
+
+def _future_qubit(ctx, case):
+    """q.rot_*(angle=a) on the FutureQubit of an EPR context, then the same angle on an ordinary qubit, then once more: every
+    occurrence must emit a complete decomposition."""
+    from netqasm.sdk.epr_socket import EPRSocket
+    from netqasm.sdk.qubit import Qubit
+    from vf.harness import controller as hc
+    from vf.harness.link import LinkModel, PlannedRequest
+    from vf.harness.pipeline import Pipe
+    a, axis = case["angle"], case["axis"]
+    es = EPRSocket("bob")
+    link = LinkModel([PlannedRequest("create", "K", 1)], partners=False)
+    pipe = Pipe(epr_sockets=[es], link=link, max_qubits=3)
+    try:
+        with pipe.conn as conn:
+            with es.create_context(number=1) as (fq, pair):
+                getattr(fq, "rot_" + axis)(angle=a)
+                fq.measure()
+            conn.flush()
+            q = Qubit(conn)
+            getattr(q, "rot_" + axis)(angle=a)
+            q.measure()
+            conn.flush()
+            q2 = Qubit(conn)
+            getattr(q2, "rot_" + axis)(angle=a)
+            q2.measure()
+            conn.flush()
+    except (hc.ControllerFault, hc.Deadlock, hc.StepLimit) as e:
+        ctx.fail(case, f"rotation on a FutureQubit: controller run failed: {e}")
+        return ctx.case(case, True)
+    tol = 1e-4
+    for k, sub in enumerate(pipe.conn.subroutines):
+        nds = [(i.angle_num.value, i.angle_denom.value) for i in sub.instructions if i.mnemonic == "rot_" + axis.lower()]
+        ctx.count("sdk_route_rotations", len(nds))
+        ok, msg, key = judge(a, tol, nds)
+        if not ok:
+            where = ["on the FutureQubit of an EPR context", "on an ordinary qubit after it was used on a FutureQubit", "on a third qubit"][min(k, 2)]
+            ctx.fail(case, f"SDK route, rot_{axis}(angle={a!r}) {where}: " + msg, key=key)
+            break
     ctx.case(case, _nontrivial(a, tol))
